@@ -20,7 +20,7 @@ def sh(cmd, cwd=None, timeout=3600):
     return p.returncode, p.stdout
 
 
-def confirm(patch, demo, features):
+def confirm(patch, demo, features, demo_args=None):
     wt = tempfile.mkdtemp(prefix="rrtk_confirm_")
     os.rmdir(wt)
     res = {}
@@ -28,6 +28,8 @@ def confirm(patch, demo, features):
         rc, out = sh(["git", "-C", REPO, "worktree", "add", "-q", wt, "HEAD"])
         assert rc == 0, out
         feat = ["--features", features] if features else []
+        if demo_args:       # e.g. a non-default configuration: --no-default-features --features std
+            feat = demo_args.split()
         shutil.copy(demo, os.path.join(wt, "tests", "zz_seeded_demo.rs"))
         rc, out = sh(["cargo", "test", "--offline", "--test", "zz_seeded_demo"] + feat, cwd=wt)
         res["demo_without_patch"] = "pass" if rc == 0 else "FAIL"
@@ -84,9 +86,12 @@ if __name__ == "__main__":
     a = sys.argv[1:]
     if a and a[0] == "confirm":
         feats = None
-        if "--features" in a:
+        dargs = None
+        if "--demo-args" in a:
+            dargs = a[a.index("--demo-args") + 1]
+        elif "--features" in a:
             feats = a[a.index("--features") + 1]
-        sys.exit(0 if confirm(a[1], a[2], feats) else 1)
+        sys.exit(0 if confirm(a[1], a[2], feats, dargs) else 1)
     elif a and a[0] == "run":
         run(a[1], a[2:])
     else:
